@@ -440,3 +440,50 @@ func (h *vHist) refBestWork(r *Repository) *big.Int {
 }
 
 func context_bg() context.Context { return context.Background() }
+
+
+// scripted submits a concrete header (no symbolic choice) with the given parent index and weight.
+func (h *vHist) scripted(parent, weight int) (int, error) {
+	i := len(h.hdr)
+	hd := &wire.BlockHeader{Version: 1, Timestamp: uint32(1600000000 + 600*i), Bits: verifBitsTable[weight], Nonce: uint32(3000 + i)}
+	hd.MerkleRoot[0] = byte(i)
+	hd.PrevBlock = h.hash[parent]
+	idx := h.record(hd, parent)
+	err := h.repo.ProcessHeader(h.ctx, hd)
+	return idx, err
+}
+
+// richState builds, by concrete submissions, a tree with a best chain, a side branch of three
+// headers, a fork of that side branch and a one-header fork near the tip:
+//
+//	G - m1 - m2 - m3 - m4          (best chain, unit weights)
+//	     \         \
+//	      a1-a2-a3   c1
+//	       \
+//	        b1-b2
+//
+// The symbolic steps of a harness then start from this state ("drive the unit from a
+// constructed state" instead of reaching it through long symbolic histories).
+func (h *vHist) richState() []int {
+	var idx []int
+	add := func(parent, weight int) int {
+		i, err := h.scripted(parent, weight)
+		if err != nil {
+			verifAssert(false, "rich-state-setup-refused")
+		}
+		idx = append(idx, i)
+		return i
+	}
+	m1 := add(0, 0)
+	m2 := add(m1, 0)
+	m3 := add(m2, 1)
+	a1 := add(m1, 0)
+	a2 := add(a1, 0)
+	m4 := add(m3, 0)
+	add(a2, 0) // a3
+	b1 := add(a1, 0)
+	add(b1, 0) // b2
+	add(m3, 0) // c1
+	_ = m4
+	return idx
+}
